@@ -32,42 +32,47 @@ from mc import core
 from mc.refmodels import proto_hil as ref
 
 LEVEL = 'model_checking'
-RULE = ('CMDRequest: one shard per (wire-width configuration, first command); BFS over the product (live block snapshot, '
-        'environment position in the command being sent, character being offered, monitor state, commands sent); per state '
-        'the choices are "valid=0" or "start offering <each character the grammar allows next>", a held character is the '
-        'only choice until transferred. CMDResponse: one shard per first (vin,size); BFS with choices (start_resp, ready, '
-        'vin, size); the second (vin,size) ranges over the whole grid. A case is non-trivial when the command carries a '
-        'non-zero number / the response contains a non-zero digit.')
+RULE = ('CMDRequest: one shard per (wire-width configuration, first command or first-command prefix); BFS over the product (live '
+        'block snapshot, environment position in the command being sent, character being offered, monitor state, commands sent); '
+        'per state the choices are "valid=0" or "start offering <each character the grammar allows next>", a held character is '
+        'the only choice until transferred. CMDResponse: one shard per first (vin,size); BFS with choices (start_resp, ready, '
+        'vin, size); the second (vin,size) ranges over the whole grid. Non-trivial = the command carries a non-zero number / '
+        'the response has a non-zero digit.')
+FINAL_QUIET = 3      # cycles with ready = 1 after the last command of a bounded stream before "everything pulsed" is demanded
+STUCK = 24           # consecutive cycles with ready = 0 and no action pulse = stuck
+RESP_STALL = 8       # cycles with ready = 1 and no transfer during a response = the response stopped
 ASSUMPTIONS = [
     'a character transfer is an edge entered with valid = 1 and ready = 1 (CMDRequest.clock reads valid only while it drives ready = 1)',
-    'only upper-case hex digits are commands (the decoder docstring and the host side, which formats with :X, use upper case); '
-    'lower case and other characters (e.g. the newline the host appends) are outside "well-formed" and not sent',
-    'a pulse belongs to the command whose terminator was transferred last; a command must have pulsed everything by the time '
-    'the next terminator is transferred (or, for the last command of a bounded stream, by the time ready has been 1 for %d cycles)',
-    '"selects output n and then starts a response" is read as: start_resp rises after set_index_out has risen and the two are never '
-    'high in the same cycle',
-    'stuck = ready stays 0 for %d consecutive cycles without any action pulse',
+    'only upper-case hex digits are commands (the host side formats with :X); lower case and other characters (e.g. the newline '
+    'the host appends) are outside "well-formed" and are not sent',
+    'a pulse belongs to the command whose terminator was transferred last; a command must have pulsed everything by the time the '
+    'next terminator is transferred (for the last command of a bounded stream: by the time ready has been 1 for %d cycles)' % FINAL_QUIET,
+    '"selects output n and then starts a response" is read as: start_resp rises after set_index_out has risen and the two are '
+    'never high in the same cycle',
+    'stuck = ready stays 0 for %d consecutive cycles without any action pulse' % STUCK,
     'numbers wider than a data wire are compared modulo 2^width (Wire semantics); the wide configuration (12/32/12 bits) avoids this',
-    'CMDResponse: size is the number of hex digits (the class comment and the code say nibbles; the Args line says bits); vin and size are '
-    'held from the start pulse to the end of the response; start_resp is pulsed only while the block is idle; a response stalls '
-    '(length / not_idle_after) if %d cycles with ready = 1 pass without a transfer',
+    'the producer may keep valid low for any number of cycles (not only 0..2): the graph closes because a decoder waiting with '
+    'valid = 0 does not change state',
+    'CMDResponse: size = number of hex digits (class comment and code say nibbles; the Args line says bits); vin and size are held '
+    'from the start pulse to the end of the response; start_resp is pulsed only while the block is idle; a response has stopped '
+    '(length / not_idle_after) if %d cycles with ready = 1 pass without a transfer' % RESP_STALL,
+    'closed loop (thorough): 4 system clocks per UART bit; only the text handed to the decoder and the resulting set_v_in pulse are checked '
+    '(the leading "=" of a response is not a well-formed command)',
     'reference codecs in mc/refmodels/proto_hil.py are trusted',
 ]
-FINAL_QUIET = 3
-STUCK = 24
-RESP_STALL = 8
-ASSUMPTIONS = [a % n if '%d' in a else a for a, n in zip(ASSUMPTIONS, [0, 0, FINAL_QUIET, 0, STUCK, 0, RESP_STALL, 0])]
 
 QUICK_ALPHA = '019AF'
 BOUNDS = {
-    'quick': 'CMDRequest: wide wires (12/32/12): every stream of <= 2 commands with 1-2 digits from {0,1,9,A,F} (120 commands) and every '
-             'stream of <= 3 commands with 1-2 digits from {0,9,F} (48 commands), all gap timings; narrow wires (1/2/1): streams of '
-             'unbounded length over 1-2 digits from {0,9,F} (closed graph). CMDResponse: vin in {0,1,0xA5,0xFEDCBA98,0xFFFFFFFF,0x0F0F0F0F} '
-             'x size 1..8, two consecutive responses, every ready pacing.',
-    'thorough': 'CMDRequest: wide wires: <= 3 commands with 1-2 digits from {0,1,9,A,F}; <= 2 commands where one has 1-3 digits from all 16 '
-                'and the other 1-2 digits from {0,9,F}; <= 4 commands with 1 digit from {0,9,F} or 2 digits from {0,F}... (see shards); narrow wires (2/4/2): '
-                'unbounded streams over {0,1,9,A,F} x 1-2 digits. CMDResponse: 12 vin values x size 1..8, two consecutive responses. '
-                'Closed loop CMDResponse -> UARTSerializer -> UARTDeserializer -> CMDRequest at 2 clocks/bit.',
+    'quick': 'CMDRequest, wide wires (12/32/12): every stream of <= 2 commands with 1-2 digits from {0,1,9,A,F} (120 commands) and every '
+             'stream of <= 3 commands with 1-2 digits from {0,9,F} (48 commands), every producer timing; narrow wires (1/2/1): streams of '
+             'unbounded length over 1-2 digits from {0,9,F} (closed graph). CMDResponse: vin in {0,1,0xA5,0xFEDCBA98,0xFFFFFFFF,'
+             '0x0F0F0F0F} x size 1..8, two consecutive responses (second over the whole grid), every ready pacing.',
+    'thorough': 'CMDRequest, wide wires: every stream of <= 3 commands with 1-2 digits from {0,1,9,A,F}; <= 4 commands with 1 digit from '
+                '{0,1,9,A,F}; every command with 1-3 digits from all 16 followed by <= 1 command with 1 digit from {0,9,F}; every command '
+                'with 1 digit from {0,9,F} followed by <= 1 command with 1-3 digits from all 16; narrow wires: unbounded streams over '
+                '{0,1,9,A,F} x 1-2 digits (1/2/1 bits) and {0,9,F} x 1-2 digits (2/4/2 bits). CMDResponse: 12 vin values x size 1..8, two '
+                'consecutive responses. Closed loop CMDResponse -> UARTSerializer -> UARTDeserializer -> CMDRequest, 6 values x 4 sizes x '
+                '8 start phases.',
 }
 
 HEX = ref.HEX
@@ -78,20 +83,21 @@ VINS_T = VINS_Q + [0x12345678, 0x89ABCDEF, 0x80000000, 0x9, 0xA, 0x0000F000]
 
 # ============================================================================= shards
 
-def _req(cfg, alpha, maxdig, ncmd, first=None, alpha_first=None, maxdig_first=None, tag=''):
+def _req(cfg, alpha, maxdig, ncmd, first=None, alpha2=None, maxdig2=None):
+    """alpha/maxdig: grammar of the first command (and of all commands unless alpha2/maxdig2 give the grammar of the later
+    ones); ncmd: maximum number of commands in a stream (None = unbounded); first: fixed first command, or a prefix of it."""
     d = {'blk': 'req', 'cfg': cfg, 'alpha': alpha, 'maxdig': maxdig, 'ncmd': ncmd}
     if first is not None:
         d['first'] = first
-    if alpha_first is not None:
-        d['alpha2'] = alpha_first       # grammar of the commands after the first one
-        d['maxdig2'] = maxdig_first
+    if alpha2 is not None:
+        d['alpha2'] = alpha2
+        d['maxdig2'] = maxdig2
     return d
 
 
 def shards(tier):
     out = []
     T = tier == 'thorough'
-    # --- CMDRequest
     if not T:
         for cmd in ref.all_commands(QUICK_ALPHA, 2):
             out.append(_req('wide', QUICK_ALPHA, 2, 2, first=cmd))
@@ -101,18 +107,17 @@ def shards(tier):
     else:
         for cmd in ref.all_commands(QUICK_ALPHA, 2):
             out.append(_req('wide', QUICK_ALPHA, 2, 3, first=cmd))
-        # long numbers: first command 1-3 digits from all 16, then one command of the small grammar ...
+        for cmd in ref.all_commands(QUICK_ALPHA, 1):
+            out.append(_req('wide', QUICK_ALPHA, 1, 4, first=cmd))
+        # long numbers: first command = 1-3 digits from all 16 (shard = kind + first digit), then <= 1 small command ...
         for kind in 'IVOK':
             for d0 in HEX:
-                out.append(_req('wide', HEX, 3, 2, first=('' if kind == 'V' else kind) + d0, alpha_first='09F', maxdig_first=2))
+                out.append(_req('wide', HEX, 3, 2, first=('' if kind == 'V' else kind) + d0, alpha2='09F', maxdig2=1))
         # ... and a small first command followed by any command with 1-3 digits from all 16
         for cmd in ref.all_commands('09F', 1):
-            out.append(_req('wide', '09F', 1, 2, first=cmd, alpha_first=HEX, maxdig_first=3))
-        for cmd in ref.all_commands('09F', 1):
-            out.append(_req('wide', '09F', 1, 4, first=cmd))
+            out.append(_req('wide', '09F', 1, 2, first=cmd, alpha2=HEX, maxdig2=3))
         out.append(_req('narrow', QUICK_ALPHA, 2, None))
         out.append(_req('narrow2', '09F', 2, None))
-    # --- CMDResponse
     for vin in (VINS_T if T else VINS_Q):
         for size in range(1, 9):
             out.append({'blk': 'resp', 'vin': vin, 'size': size, 'grid': 'T' if T else 'Q'})
@@ -122,13 +127,20 @@ def shards(tier):
     return out
 
 
+def _ncommands(alpha, maxdig):
+    return 4 * sum(len(alpha) ** k for k in range(1, maxdig + 1))
+
+
 def cost(d):
     if d['blk'] == 'req':
         if d['ncmd'] is None:
-            return 10000
-        return 100 * (len(d['alpha']) ** d['maxdig']) ** (d['ncmd'] - 1) * (20 if 'alpha2' in d else 1)
+            return 10 ** 9
+        f = d.get('first', '')
+        n1 = 1 if (f and f[-1] in ref.KIND_OF_TERMINATOR) else _ncommands(d['alpha'], d['maxdig']) // (4 * len(d['alpha']))
+        n2 = _ncommands(d.get('alpha2', d['alpha']), d.get('maxdig2', d['maxdig']))
+        return n1 * n2 ** (d['ncmd'] - 1)
     if d['blk'] == 'loop':
-        return 5000
+        return 2000
     return 1
 
 
@@ -496,7 +508,7 @@ def build_loop(d):
     for n in OBS[:5]:
         w[n] = hw.wire(n)
     CMDResponse(hw, 'cmd_resp', vin, size, start, s_ready, s_valid, s_v)
-    ClockGenerationAndRecovery(hw, 'uart_clock', line, desync, txp, rxs, 2, 1)
+    ClockGenerationAndRecovery(hw, 'uart_clock', line, desync, txp, rxs, 4, 1)
     UARTSerializer(hw, 'ser', s_ready, s_valid, s_v, txp, line)
     UARTDeserializer(hw, 'des', line, rxs, r_ready, r_valid, r_c, desync)
     CMDRequest(hw, 'cmd_req', r_ready, r_valid, r_c, w['index_in'], w['v_in'], w['index_out'], w['set_index_in'], w['set_v_in'],
